@@ -52,7 +52,7 @@ MULTILINE_LITERALS = (MultiLit("first\n   \nlast"), MultiLit("a\n\t\n \nb\n    "
 RAW_LITERALS = (RawLit("a\tb"), RawLit("\tlead"), RawLit("trail\t"), RawLit("x\x0cy"), RawLit("\u00e9\t\u65e5\u672c"), RawLit("two  spaces   three"),
                 RawLit("\ufeffbom inside"), RawLit("nb\u00a0sp")) + MULTILINE_LITERALS
 
-NOISE = ["print", "stdout_write", "dunder_stdout", "os_write1", "os_write2", "os_system", "stderr_write", "os_read0", "stdin_read", "child_reads_stdin"]
+NOISE = ["print", "stdout_write", "dunder_stdout", "os_write1", "os_write2", "os_system", "stderr_write", "os_read0", "stdin_read", "child_reads_stdin", "rebind_stdout"]
 
 
 def gen_program(rng, gen, allow_raise=True, big=False):
@@ -131,6 +131,14 @@ def render_lines(prog, indent=""):
             elif how == "child_reads_stdin":
                 L.append("import os")
                 L.append("os.system('head -c 4096 > /dev/null')")
+            elif how == "rebind_stdout":
+                # code that captures its own output: the worker's stdout object is replaced (and dropped); descriptor 1 is
+                # still there afterwards and still leads nowhere near the protocol
+                L.append("import sys, io, os")
+                L.append("sys.stdout = io.StringIO()")
+                L.append("print('captured')")
+                L.append("os.write(1, b'raw write after rebinding')")
+                L.append("sys.stdout = open(os.devnull, 'w')")
             elif how == "os_system":
                 L.append("import os")
                 L.append(f"os.system('echo {'s' * min(nb, 1000)}')")
